@@ -646,6 +646,66 @@ def check_needed(ck, prog):
     ck.floor("C09-NEEDED", 4)
 
 
+def check_saturate(ck, prog):
+    """Memory-usage figures can be UINT64_MAX ("more than can be represented": lzma_index_memusage() and the Index
+    decoder's memconfig report that for absurd Record counts).  A memconfig function that reports the SUM of such a
+    figure and something else must not let the sum wrap: the addition has to be behind a comparison with UINT64_MAX
+    (saturation).  A wrapped sum is a tiny number, so lzma_memusage() understates the need right after
+    LZMA_MEMLIMIT_ERROR and lzma_memlimit_set() accepts limits it must refuse."""
+    ck.rule("C09-SATURATE", "sums of memory-usage figures that may be UINT64_MAX are saturated")
+    cg = common.callgraph(prog)
+    mcs = set()
+    for (rec, field), fns in cg.slots.items():
+        if field == "memconfig":
+            mcs |= set(fns)
+    n = 0
+    for name in sorted(mcs):
+        for f in prog.functions.get(name, []):
+            if not f.blocks:
+                continue
+            # locals filled in by another memconfig call / lzma_index_memusage (may be UINT64_MAX)
+            big = set()
+            for b, i, e in f.iter_elems():
+                for c in ex.calls(e, into_refs=True):
+                    tgt = ex.show(c.get("callee") or {}) if c.get("callee") else (c.get("fn") or "")
+                    if "memconfig" in tgt or c.get("fn") in ("lzma_index_memusage",) or (c.get("slot") == "memconfig"):
+                        for a in c["args"]:
+                            a0 = ex.strip(a)
+                            if a0 is not None and a0.get("k") == "un" and a0["op"] == "&" and ex.strip(a0["e"]).get("k") == "var":
+                                big.add(ex.strip(a0["e"])["n"])
+                e_ = ex.deref(e)
+                if e_.get("k") == "decl" and e_.get("init") is not None and any(
+                        c.get("fn") == "lzma_index_memusage" for c in ex.calls(e_["init"])):
+                    big.add(e_["n"])
+            if not big:
+                continue
+            doms = cfg.dominators(f)
+            for b, i, e in f.iter_elems():
+                for (l, r, op, nd) in ex.writes(e):
+                    if r is None or "memusage" not in ex.show(l):
+                        continue
+                    adds = [x for x in ex.walk(r) if x.get("k") == "bin" and x["op"] == "+" and
+                            any(y.get("k") == "var" and y["n"] in big for y in ex.walk(x))]
+                    if op == "+=" and any(y.get("k") == "var" and y["n"] in big for y in ex.walk(r)):
+                        adds.append(nd)
+                    if not adds:
+                        continue
+                    n += 1
+                    ck.saw_function(f)
+                    guarded = any(f.blocks[d].term and "cond" in f.blocks[d].term and
+                                  any(ex.const_val(y) == 0xFFFFFFFFFFFFFFFF for y in ex.walk(f.blocks[d].term["cond"]))
+                                  for d in doms.get(b.id, ()) if d != b.id)
+                    ck.ob("C09-SATURATE", "%s:%s" % (f.name, ex.show(l)), guarded, common.where(f, nd),
+                          "%s: `%s` is behind a comparison with UINT64_MAX" % (f.name, ex.show(nd)[:70]) if guarded else
+                          "%s(): `%s` adds %s, which can be UINT64_MAX (reported by the nested memconfig / lzma_index_memusage for "
+                          "an absurd Record count), without a saturation test: the sum wraps to a tiny value, so after "
+                          "LZMA_MEMLIMIT_ERROR lzma_memusage() understates the need and lzma_memlimit_set() mis-handles "
+                          "the new limit" % (f.name, ex.show(nd)[:70], "/".join(sorted(big))),
+                          key="SATURATE:%s" % f.name)
+    if n < 1:
+        raise AnalysisBroken("C09-SATURATE: no memconfig function sums a nested memory-usage figure (file_info expected)")
+
+
 def run(ck):
     ck.explanation = (
         "Must-pass (edge cut) rules on the resume-aware product graphs of the container decoders: every "
@@ -666,6 +726,7 @@ def run(ck):
     check_xz(ck, prog_xz)
     check_terms(ck, prog, prog_xz)
     check_clamp(ck, prog)
+    check_saturate(ck, prog)
     check_needed(ck, prog)
     from . import reinit
     ck.rule("C09-STALENEXT", "memconfig and the other entry points use a lazily initialised nested decoder only behind a test of coder->sequence")
